@@ -41,9 +41,12 @@ func c02Types() []*c02Type {
 		{key: "Variable", name: "Variable", g: 'f', lit: "(5 als Variable)", ref: "Variablen Referenz", scalar: true},
 		{key: "AliasZahl", name: "Ganzzahl", g: 'f', lit: "(2 als Ganzzahl)", ref: "Ganzzahl Referenz", scalar: true},
 		{key: "AliasText", name: "Wort", g: 'n', lit: `("abc" als Wort)`, ref: "Wort Referenz", scalar: true},
+		{key: "AliasByte", name: "Oktett", g: 'n', lit: "((2 als Byte) als Oktett)", ref: "Oktett Referenz", scalar: true},
+		{key: "AliasKommazahl", name: "Bruchzahl", g: 'f', lit: "(2,5 als Bruchzahl)", ref: "Bruchzahl Referenz", scalar: true},
 		{key: "AliasListe", name: "Reihe", g: 'f', lit: L("1", "2", "3"), ref: "Reihe Referenz"},
 		{key: "DefZahl", name: "Nummer", g: 'f', lit: "(2 als Nummer)", ref: "Nummer Referenz", scalar: true},
 		{key: "DefText", name: "Titel", g: 'm', lit: `("abc" als Titel)`, ref: "Titel Referenz", scalar: true},
+		{key: "DefByte", name: "Oktade", g: 'f', lit: "((2 als Byte) als Oktade)", ref: "Oktade Referenz", scalar: true},
 		{key: "DefPunkt", name: "Ort", g: 'm', lit: "((leer_Punkt) als Ort)", ref: "Ort Referenz", scalar: true},
 		{key: "ListeVonListen", name: "Reihe Liste", g: 'f', lit: "(eine leere Reihe Liste)", ref: "Reihe Listen Referenz", nested: true},
 	}
@@ -60,9 +63,12 @@ einen Punkt, und erstellen sie so:
 
 Wir nennen eine Zahl auch eine Ganzzahl.
 Wir nennen einen Text auch ein Wort.
+Wir nennen einen Byte auch ein Oktett.
+Wir nennen eine Kommazahl auch eine Bruchzahl.
 Wir nennen eine Zahlen Liste auch eine Reihe.
 Wir definieren eine Nummer als eine Zahl.
 Wir definieren einen Titel als einen Text.
+Wir definieren eine Oktade als einen Byte.
 Wir definieren einen Ort als einen Punkt.
 
 `
